@@ -291,6 +291,7 @@ type vPeerChannel struct {
 	werr     error // when non-nil WriteFcall fails with it (set by the harness before the write)
 	wfailAt  int   // fail the n-th write (1-based) when > 0
 	nwrites  int
+	werrs    chan error // when non-nil: an error sent here fails the write that is blocked at that moment
 }
 
 func newVPeerChannel() *vPeerChannel {
@@ -323,6 +324,8 @@ func (c *vPeerChannel) WriteFcall(ctx context.Context, fc *Fcall) error {
 	select {
 	case c.toPeer <- &cp:
 		return nil
+	case err := <-c.werrs:
+		return err
 	case <-ctx.Done():
 		return ctx.Err()
 	}
